@@ -1073,7 +1073,10 @@ struct SysHarness
     for (size_t k = 0; k < W->th[0].view.size(); ++k) W->th[0].view[k] = static_cast<int>(W->locs[k].mo.size()) - 1;
     W->latest_only = true;
     size_t before = recs.size() + 1;
-    for (int i = 0; g_cfg.runloop.empty() && i < 12 && (recs.size() != before || i < 3); ++i) // (a stopped backend polls no more)
+    // (a poll below the soft limit writes one statement: as many polls as there are statements, and a few; a stopped backend
+    // polls no more)
+    int const max_polls = static_cast<int>(g_cfg.ops.size() + g_cfg.ops2.size()) + 8;
+    for (int i = 0; g_cfg.runloop.empty() && i < max_polls && (recs.size() != before || i < 3); ++i)
     {
       before = recs.size();
       bw->_poll();
